@@ -254,6 +254,19 @@ def cases(tier, seed):
         add("luk", "iluk_factors", "%d %s" % (r.choice([0, 1, 2]), A))
         add("lup", "ilup_factors", "%d %s" % (r.choice([1, 2]), A))
         add("c", "ilut_factors", "%s %s %s" % (fmt_q(r.choice([F(1), F(3, 2), F(2)])), fmt_q(r.choice([F(0), F(1, 8)])), A))
+    # iluk, k >= 2: the level of an entry is the MINIMUM over all elimination paths that reach it
+    # (sparse_vector::add lowers the level of an existing entry); this only matters when a position is
+    # reached first through a small pivot column at a high level and later through a larger pivot at a
+    # lower level and then generates fill at the admission boundary: sparse non-symmetric patterns,
+    # n = 6..12, two or three off-diagonals per row, k = 2, 3, 4
+    for _ in range(700 if tier == "quick" else 5000):
+        n = r.randint(6, 12); rows = []
+        for i in range(n):
+            cols = set(r.sample([c for c in range(n) if c != i], r.choice([1, 2, 2, 3])))
+            row = [(c, F(-r.choice([1, 1, 2, 3]), r.choice([1, 2, 4]))) for c in sorted(cols)]
+            row.append((i, F(sum(abs(v) for _, v in row)) + r.choice([1, 2, F(1, 2)])))
+            rows.append(sorted(row))
+        add("lukp", "iluk_factors", "%d %s" % (r.choice([2, 2, 3, 4]), fmt_crs(n, n, rows)))
     # ilut: values exactly ON the dropping threshold (|w_k| == tol, |entry| == tol)
     for _ in range(12 if tier == "quick" else 80):
         u, v, w_ = gen.rq(r, nz=True), gen.rq(r, nz=True), gen.rq(r, nz=True)
